@@ -49,6 +49,10 @@ pub struct Config {
     pub rename_fn: Option<String>,
     /// R12: constants extracted as accessor functions; a path `NAME` becomes the call `NAME()`
     pub const_calls: Vec<String>,
+    /// ghost threading: extra (ghost) parameters appended to the signature, e.g. "Ghost(open): Ghost<ISet<int>>"
+    pub ghost_params: Option<String>,
+    /// callees whose call sites receive one extra ghost argument (text supplied by the recipe, per call ordinal)
+    pub ghost_args: Vec<String>,
     /// R5 follow-up: type names whose lifetime parameters became unused (all borrowed strings mapped to `Str`)
     pub strip_lifetimes: Vec<String>,
 }
@@ -106,6 +110,8 @@ impl Config {
         c.as_inherent = item["as_inherent"].as_bool().unwrap_or(false);
         c.as_free = item["as_free"].as_bool().unwrap_or(false);
         c.rename_fn = item["rename_fn"].as_str().map(|s| s.to_string());
+        c.ghost_params = item["ghost_params"].as_str().map(|s| s.to_string());
+        c.ghost_args = strs(&item["ghost_args"]);
         if let Some(m) = item["loopmode"].as_object() {
             for (k, v) in m {
                 c.loopmode.insert(k.parse().map_err(|_| "loopmode: bad key")?, v.as_str().unwrap_or("").to_string());
@@ -912,6 +918,57 @@ impl<'a> VisitMut for LoopPass<'a> {
 }
 
 // ------------------------------------------------------------------------------------------
+// ghost threading: ghost arguments at the call sites of listed callees
+// ------------------------------------------------------------------------------------------
+
+struct GhostArgPass<'a> {
+    cfg: &'a Config,
+    counts: &'a mut Counts,
+    seen: BTreeMap<String, u64>,
+}
+
+impl<'a> GhostArgPass<'a> {
+    fn arg(&mut self, name: &str) -> syn::Expr {
+        let n = *self.seen.get(name).unwrap_or(&0);
+        self.seen.insert(name.to_string(), n + 1);
+        let id = syn::Ident::new(name, Span::call_site());
+        let lit = proc_macro2::Literal::u64_unsuffixed(n);
+        bump(self.counts, "R14.ghost_arg");
+        syn::parse_quote!(__vx_garg!(#id, #lit))
+    }
+}
+
+impl<'a> VisitMut for GhostArgPass<'a> {
+    fn visit_expr_mut(&mut self, e: &mut syn::Expr) {
+        // pre-order numbering: number this call before the calls nested in its arguments
+        match e {
+            syn::Expr::Call(c) => {
+                let name = match &*c.func {
+                    syn::Expr::Path(p) => p.path.segments.last().map(|s| s.ident.to_string()),
+                    _ => None,
+                };
+                if let Some(n) = name {
+                    if self.cfg.ghost_args.iter().any(|g| *g == n) {
+                        let a = self.arg(&n);
+                        c.args.push(a);
+                    }
+                }
+            }
+            syn::Expr::MethodCall(mc) => {
+                let n = mc.method.to_string();
+                if self.cfg.ghost_args.iter().any(|g| *g == n) {
+                    let a = self.arg(&n);
+                    mc.args.push(a);
+                }
+            }
+            _ => {}
+        }
+        visit_mut::visit_expr_mut(self, e);
+    }
+    fn visit_macro_mut(&mut self, _m: &mut syn::Macro) {}
+}
+
+// ------------------------------------------------------------------------------------------
 // structural anchors (second-tier, DESIGN §2.4a)
 // ------------------------------------------------------------------------------------------
 
@@ -1152,6 +1209,19 @@ pub fn apply_to_fn(
         let mut p = MethodRenamePass { cfg, counts };
         p.visit_item_fn_mut(f);
     }
+    // ghost threading
+    if let Some(gp) = &cfg.ghost_params {
+        let wrapped = format!("fn __f({}) {{}}", gp);
+        let parsed: syn::ItemFn = syn::parse_str(&wrapped).map_err(|e| format!("bad recipe: ghost_params: {}", e))?;
+        for a in parsed.sig.inputs {
+            f.sig.inputs.push(a);
+        }
+        bump(counts, "R14.ghost_param");
+    }
+    if !cfg.ghost_args.is_empty() {
+        let mut p = GhostArgPass { cfg, counts, seen: BTreeMap::new() };
+        p.visit_block_mut(&mut f.block);
+    }
     // loops / closures
     let mut info = FnInfo::default();
     {
@@ -1163,10 +1233,29 @@ pub fn apply_to_fn(
         info.loops = p.loops;
         info.closures = p.closures;
         info.closure_params = p.closure_params;
-        for lf in p.lifted {
+        for (k, mut lf) in p.lifted.into_iter().enumerate() {
+            // structural anchors inside the lifted body are requested with kinds `l_after_call`, `l_before_return`, `l_iflet_head`
+            let lifted_anchors: Vec<(String, String, u64)> = cfg.anchors.iter().filter(|(kd, _, _)| kd.starts_with("l_")).map(|(kd, n, m)| (kd[2..].to_string(), n.clone(), *m)).collect();
+            if !lifted_anchors.is_empty() {
+                let acfg = Config { anchors: lifted_anchors.clone(), ..Config::default() };
+                let mut ap = AnchorPass { cfg: &acfg, seen_calls: BTreeMap::new(), placed: vec![], returns: 0, iflets: 0 };
+                ap.visit_block_mut(&mut lf.block);
+                for (kd, n, m) in &lifted_anchors {
+                    let key = match kd.as_str() {
+                        "after_call" => format!("after_call_{}_{}", n, m),
+                        "before_return" => format!("before_return_r_{}", m),
+                        "iflet_head" => format!("iflet_head_b_{}", m),
+                        other => return Err(format!("bad recipe: unknown lifted anchor kind {}", other)),
+                    };
+                    if !ap.placed.contains(&key) {
+                        return Err(format!("lost anchor: structural anchor {} not found in lifted closure", key));
+                    }
+                }
+            }
             let dummy_cfg = Config { ret: Some("r".into()), ..Config::default() };
             let fi = FnInfo::default();
-            info.lifted_text.push(crate::printer::print_fn(&lf, None, &dummy_cfg, &fi)?);
+            let t = crate::printer::print_fn(&lf, None, &dummy_cfg, &fi)?;
+            info.lifted_text.push(t.replace("__VX_SPEC__", &format!("__VX_LIFTED_{}__", k)));
         }
     }
     // anchors
@@ -1181,6 +1270,7 @@ pub fn apply_to_fn(
                 "iflet_head" => format!("iflet_head_b_{}", m),
                 "entry" => continue,
                 "before_tail" => continue,
+                k if k.starts_with("l_") => continue,
                 other => return Err(format!("bad recipe: unknown anchor kind {}", other)),
             };
             if !p.placed.contains(&key) {
